@@ -19,25 +19,27 @@ use std::sync::atomic::{AtomicBool, AtomicU64, Ordering};
 use std::sync::{Arc, Mutex};
 use std::time::{Duration, Instant};
 
-pub const STEPS: [&str; 4] = ["Compute", "Yield", "SyscallEnter", "SyscallExit"];
+/// the three `...State` steps only re-label the syscall sub-state the coroutine is in (what the hooks do
+/// around a wait); they are legal between SyscallEnter and SyscallExit only
+pub const STEPS: [&str; 7] = ["Compute", "Yield", "SyscallEnter", "SyscallExit", "SyscallSuspendState", "SyscallCallbackState", "SyscallTimeoutState"];
 
 #[derive(Clone, Debug)]
 pub struct Case {
     /// programs of 1..2 coroutines
     progs: Vec<Vec<usize>>,
-    /// deliver SIGURG to coroutine `sig.0` before its step `sig.1` (None = reference run)
-    sig: Option<(usize, usize)>,
+    /// deliver SIGURG to coroutine `.0` before its step `.1`, for every entry (empty = reference run)
+    sig: Vec<(usize, usize)>,
     live: bool,
 }
 
 impl Case {
     fn to_json(&self) -> Value {
-        json!({"programs": self.progs.iter().map(|p| p.iter().map(|s| STEPS[*s]).collect::<Vec<_>>()).collect::<Vec<_>>(), "signal_before": self.sig.map(|(c, k)| json!({"coroutine": c, "step": k})), "live": self.live})
+        json!({"programs": self.progs.iter().map(|p| p.iter().map(|s| STEPS[*s]).collect::<Vec<_>>()).collect::<Vec<_>>(), "signals_before": self.sig.iter().map(|(c, k)| json!({"coroutine": c, "step": k})).collect::<Vec<_>>(), "live": self.live})
     }
     fn from_json(v: &Value) -> Option<Case> {
         Some(Case {
             progs: v.get("programs")?.as_array()?.iter().map(|p| p.as_array().map(|a| a.iter().filter_map(|s| STEPS.iter().position(|x| Some(*x) == s.as_str())).collect())).collect::<Option<Vec<Vec<usize>>>>()?,
-            sig: v.get("signal_before").filter(|s| !s.is_null()).map(|s| (s["coroutine"].as_u64().unwrap_or(0) as usize, s["step"].as_u64().unwrap_or(0) as usize)),
+            sig: v.get("signals_before").and_then(Value::as_array).map(|a| a.iter().map(|s| (s["coroutine"].as_u64().unwrap_or(0) as usize, s["step"].as_u64().unwrap_or(0) as usize)).collect()).unwrap_or_default(),
             live: v.get("live").and_then(Value::as_bool).unwrap_or(false),
         })
     }
@@ -61,6 +63,7 @@ fn valid(p: &[usize]) -> bool {
                 in_sys = false;
             }
             "Yield" if in_sys => return false,
+            "SyscallSuspendState" | "SyscallCallbackState" | "SyscallTimeoutState" if !in_sys => return false,
             _ => {}
         }
     }
@@ -88,26 +91,26 @@ fn programs(max_len: usize) -> Vec<Vec<usize>> {
 struct Run {
     results: Vec<(usize, String)>,
     /// per coroutine: (state at the moment of the signal, number of Running->Suspend reports)
-    state_at_signal: Option<String>,
+    state_at_signal: Vec<(usize, String)>,
     suspends: Vec<usize>,
     report_violation: Option<(String, String)>,
 }
 
 fn run_once(c: &Case) -> Run {
     let mut sched = Scheduler::new("c22-sched".into(), 128 * 1024);
-    let at_signal: Arc<Mutex<Option<String>>> = Arc::new(Mutex::new(None));
+    let at_signal: Arc<Mutex<Vec<(usize, String)>>> = Arc::new(Mutex::new(Vec::new()));
     let mut reports: Vec<Arc<Mutex<Vec<Rep>>>> = Vec::new();
     let mut ids = Vec::new();
     for (i, prog) in c.progs.iter().enumerate() {
-        let (prog, sig, ats) = (prog.clone(), c.sig, at_signal.clone());
+        let (prog, sig, ats) = (prog.clone(), c.sig.clone(), at_signal.clone());
         let mut co: SchedulableCoroutine<'static> = open_coroutine_core::co!(
             Some(format!("c22-{i}")),
             move |s: &Suspender<(), ()>, ()| {
                 let mut acc = 17usize + i;
                 let me = || SchedulableCoroutine::current().expect("current");
                 for (k, st) in prog.iter().enumerate().chain(std::iter::once((prog.len(), &usize::MAX))) {
-                    if sig == Some((i, k)) {
-                        *ats.lock().unwrap() = Some(state_str(&me().state()));
+                    if sig.contains(&(i, k)) {
+                        ats.lock().unwrap().push((i, state_str(&me().state())));
                         // the preemption signal arrives exactly here
                         unsafe { libc::pthread_kill(libc::pthread_self(), libc::SIGURG) };
                     }
@@ -118,7 +121,13 @@ fn run_once(c: &Case) -> Run {
                         "Compute" => acc = acc.wrapping_mul(31).wrapping_add(k),
                         "Yield" => s.suspend(),
                         "SyscallEnter" => me().syscall((), SyscallName::read, SyscallState::Executing).expect("enter"),
-                        _ => me().running().expect("exit"),
+                        "SyscallSuspendState" => me().syscall((), SyscallName::read, SyscallState::Suspend(u64::MAX)).expect("sub-state"),
+                        "SyscallCallbackState" => me().syscall((), SyscallName::read, SyscallState::Callback).expect("sub-state"),
+                        "SyscallTimeoutState" => me().syscall((), SyscallName::read, SyscallState::Timeout).expect("sub-state"),
+                        _ => {
+                            me().syscall((), SyscallName::read, SyscallState::Executing).expect("back to executing");
+                            me().running().expect("exit");
+                        }
                     }
                 }
                 Some(acc)
@@ -195,11 +204,11 @@ pub fn exec(c: &Case, em: &mut Emitter) {
     // the arrival-point runs own every signal: under a frozen virtual clock the real monitor thread
     // never finds a coroutine overdue, however long this process is descheduled
     open_coroutine_core::verif::clock_enable(1_700_000_000_000_000_000);
-    let reference = run_once(&Case { progs: c.progs.clone(), sig: None, live: false });
+    let reference = run_once(&Case { progs: c.progs.clone(), sig: vec![], live: false });
     let with = run_once(c);
     em.emit(json!({"t":"end","reference": reference.results.iter().map(|(w, r)| json!([w, r])).collect::<Vec<_>>(),
         "with_signal": with.results.iter().map(|(w, r)| json!([w, r])).collect::<Vec<_>>(),
-        "state_at_signal": with.state_at_signal, "suspends_reference": reference.suspends, "suspends_with_signal": with.suspends,
+        "state_at_signal": with.state_at_signal.iter().map(|(w, st)| json!([w, st])).collect::<Vec<_>>(), "suspends_reference": reference.suspends, "suspends_with_signal": with.suspends,
         "report_violation": with.report_violation.map(|(c, d)| json!([c, d]))}));
 }
 
@@ -232,38 +241,62 @@ pub fn judge(c: &Case, res: &ChildResult, rep: &mut Report) {
         rep.violation_for("C07", &format!("c22.arrival/{}/under-preemption", v[0].as_str().unwrap()), format!("{}: {}", c.to_json(), v[1].as_str().unwrap()), replay());
         return;
     }
-    let Some((who, _)) = c.sig else { return };
-    let st = e["state_at_signal"].as_str().unwrap_or("");
-    let extra = e["suspends_with_signal"][who].as_u64().unwrap_or(0) as i64 - e["suspends_reference"][who].as_u64().unwrap_or(0) as i64;
-    if st == "Running" {
-        if extra != 1 {
-            rep.violation("c22.arrival/running-coroutine-is-suspended-by-the-signal/-", format!("{}: the signal arrived while the coroutine was Running, it was suspended {extra} extra time(s) (expected exactly 1)", c.to_json()), replay());
+    let hits = e["state_at_signal"].as_array().cloned().unwrap_or_default();
+    if hits.len() != c.sig.len() {
+        rep.machinery_errors.push(format!("c22: {}: {} of {} signals were delivered", c.to_json(), hits.len(), c.sig.len()));
+        return;
+    }
+    let class = if c.sig.len() > 1 { "second-signal-while-a-preempted-coroutine-is-parked" } else { "-" };
+    for who in 0..c.progs.len() {
+        let running_hits = hits.iter().filter(|h| h[0].as_u64() == Some(who as u64) && h[1] == "Running").count() as i64;
+        let sys_hits: Vec<&str> = hits.iter().filter(|h| h[0].as_u64() == Some(who as u64) && h[1].as_str().is_some_and(|s| s.starts_with("Syscall"))).filter_map(|h| h[1].as_str()).collect();
+        let extra = e["suspends_with_signal"][who].as_u64().unwrap_or(0) as i64 - e["suspends_reference"][who].as_u64().unwrap_or(0) as i64;
+        if extra != running_hits {
+            if extra > running_hits && !sys_hits.is_empty() {
+                let sub = sys_hits[0].split(',').last().unwrap_or("").trim_end_matches(')').trim().split('(').next().unwrap_or("").to_string();
+                rep.violation(&format!("c22.arrival/coroutine-in-syscall-is-never-preempted/{sub}"), format!("{}: coroutine {who} was hit in state(s) {sys_hits:?} and {running_hits} time(s) while Running; it was suspended {extra} extra time(s)", c.to_json()), replay());
+            } else {
+                rep.violation(&format!("c22.arrival/running-coroutine-is-suspended-by-the-signal/{class}"), format!("{}: coroutine {who} was hit {running_hits} time(s) while Running and was suspended {extra} extra time(s) (states at the signals: {})", c.to_json(), e["state_at_signal"]), replay());
+            }
             return;
         }
-        rep.witness("signals_in_running_state");
-    } else if st.starts_with("Syscall") {
-        if extra != 0 {
-            rep.violation("c22.arrival/coroutine-in-syscall-is-never-preempted/-", format!("{}: the signal arrived in state {st} and the coroutine was suspended {extra} extra time(s)", c.to_json()), replay());
-            return;
+        if running_hits > 0 {
+            rep.witness("signals_in_running_state");
         }
-        rep.witness("signals_in_syscall_state");
+        if !sys_hits.is_empty() {
+            rep.witness("signals_in_syscall_state");
+        }
+    }
+    if c.sig.len() > 1 {
+        rep.witness("cases_with_two_signals");
     }
 }
 
 pub fn cases(tier: &str) -> Vec<Case> {
-    let mut v = vec![Case { progs: vec![], sig: None, live: true }];
-    let one = programs(if tier == "thorough" { 5 } else { 4 });
+    let mut v = vec![Case { progs: vec![], sig: vec![], live: true }];
+    let thorough = tier == "thorough";
+    let one = programs(if thorough { 5 } else { 4 });
     for p in &one {
-        for k in 0..=p.len() {
-            v.push(Case { progs: vec![p.clone()], sig: Some((0, k)), live: false });
+        let points: Vec<(usize, usize)> = (0..=p.len()).map(|k| (0, k)).collect();
+        for (x, a) in points.iter().enumerate() {
+            v.push(Case { progs: vec![p.clone()], sig: vec![*a], live: false });
+            // two signals for the shorter programs
+            if p.len() <= (if thorough { 4 } else { 3 }) {
+                for b in &points[x + 1..] {
+                    v.push(Case { progs: vec![p.clone()], sig: vec![*a, *b], live: false });
+                }
+            }
         }
     }
-    let two = programs(if tier == "thorough" { 3 } else { 2 });
+    let two = programs(if thorough { 3 } else { 2 });
     for a in &two {
         for b in &two {
-            for (who, p) in [(0, a), (1, b)] {
-                for k in 0..=p.len() {
-                    v.push(Case { progs: vec![a.clone(), b.clone()], sig: Some((who, k)), live: false });
+            let mut points: Vec<(usize, usize)> = (0..=a.len()).map(|k| (0, k)).collect();
+            points.extend((0..=b.len()).map(|k| (1, k)));
+            for (x, p) in points.iter().enumerate() {
+                v.push(Case { progs: vec![a.clone(), b.clone()], sig: vec![*p], live: false });
+                for q in &points[x + 1..] {
+                    v.push(Case { progs: vec![a.clone(), b.clone()], sig: vec![*p, *q], live: false });
                 }
             }
         }
@@ -274,8 +307,8 @@ pub fn cases(tier: &str) -> Vec<Case> {
 pub fn run(tier: &str, rep: &mut Report) {
     let cs = cases(tier);
     rep.bounds = json!({"program_steps": STEPS, "program_len": if tier == "thorough" { "<=5 (1 coroutine), <=3 (2)" } else { "<=4 (1 coroutine), <=2 (2)" },
-        "signal_arrival": "every step boundary of every coroutine, delivered synchronously with pthread_kill(self)", "cases": cs.len(), "live_runs": 1});
-    rep.require(&["signals_in_running_state", "signals_in_syscall_state", "live_monitor_preemption_seen"]);
+        "signal_arrival": "every step boundary of every coroutine and every pair of boundaries (pairs: programs of <= 3 / 4 steps), delivered synchronously with pthread_kill(self)", "cases": cs.len(), "live_runs": 1});
+    rep.require(&["signals_in_running_state", "signals_in_syscall_state", "cases_with_two_signals", "live_monitor_preemption_seen"]);
     for c in cs.iter().step_by((cs.len() / 4).max(1)).take(4) {
         rep.sample(c.to_json());
     }
